@@ -1,10 +1,172 @@
 import Driver.Util
-open Lean Replicat
+import ReplicatModel.Settings
+open Lean Replicat Replicat.Gen Replicat.Settings
 namespace Driver
 
-/-- requests `settings.*` (see DESIGN.md Appendix A) -/
+/-! requests `settings.*` (DESIGN.md Appendix A).
+
+Typed values cross the tie as tagged arrays:
+`["i", n] ["b", true] ["f", num, den] ["nan"] ["s", "text"] ["none"] ["m", [[key, value], …]]`. -/
+
+def tagOf (j : Json) : Except String (String × Array Json) := do
+  let a ← j.getArr?
+  match a[0]? with
+  | some t => pure (← t.getStr?, a)
+  | none => throw "empty tagged value"
+
+def parseVal (j : Json) : Except String (Option Val) := do
+  let (t, a) ← tagOf j
+  match t with
+  | "i" => pure (some (.int (← (a[1]?.getD Json.null).getInt?)))
+  | "b" => pure (some (.bool (← (a[1]?.getD Json.null).getBool?)))
+  | "f" =>
+    let n ← (a[1]?.getD Json.null).getInt?
+    let d ← (a[2]?.getD Json.null).getNat?
+    if d == 0 then throw "zero denominator" else pure (some (.float ((n : Rat) / (d : Rat))))
+  | "nan" => pure (some .nan)
+  | "s" => pure (some (.str (← (a[1]?.getD Json.null).getStr?)))
+  | "none" => pure (some .none)
+  | "m" => pure none
+  | _ => throw s!"unknown value tag {t}"
+
+def mapEntries (j : Json) : Except String (List (String × Json)) := do
+  let (t, a) ← tagOf j
+  if t != "m" then throw "not a mapping"
+  let kvs ← (a[1]?.getD Json.null).getArr?
+  kvs.toList.mapM (fun kv => do
+    let p ← kv.getArr?
+    pure (← (p[0]?.getD Json.null).getStr?, p[1]?.getD Json.null))
+
+def parseArg (j : Json) : Except String Arg := do
+  match ← parseVal j with
+  | some v => pure (.val v)
+  | none => pure .mapping
+
+def parseV2 (j : Json) : Except String V2 := do
+  match ← parseVal j with
+  | some v => pure (.val v)
+  | none => do
+    let es ← mapEntries j
+    pure (.args (← es.mapM (fun (k, v) => do pure (k, ← parseArg v))))
+
+def parseV1 (j : Json) : Except String V1 := do
+  match ← parseVal j with
+  | some v => pure (.val v)
+  | none => do
+    let es ← mapEntries j
+    pure (.m (← es.mapM (fun (k, v) => do pure (k, ← parseV2 v))))
+
+def parseSettings (j : Json) : Except String (Option Settings) := do
+  if j.isNull then pure none
+  else
+    let es ← mapEntries j
+    pure (some (← es.mapM (fun (k, v) => do pure (k, ← parseV1 v))))
+
+def jint (i : Int) : Json := Json.num (JsonNumber.fromInt i)
+
+def valJson : Val → Json
+  | .int i => Json.arr #[Json.str "i", jint i]
+  | .bool b => Json.arr #[Json.str "b", Json.bool b]
+  | .float q => Json.arr #[Json.str "f", jint q.num, jnat q.den]
+  | .nan => Json.arr #[Json.str "nan"]
+  | .str s => Json.arr #[Json.str "s", Json.str s]
+  | .none => Json.arr #[Json.str "none"]
+
+def argJson : Arg → Json
+  | .val v => valJson v
+  | .mapping => Json.arr #[Json.str "m"]
+
+/-- `dict(args, name=type.__name__)` as a JSON object (the harness compares objects, not order) -/
+def rowArgsJson (p : AdapterRow × Args) : Json :=
+  Json.mkObj ((p.2.map (fun kv => (kv.1, argJson kv.2))) ++ [("name", valJson (.str p.1.name))])
+
+def errName : Err → String
+  | .replicatError => "replicat_error"
+  | .lookupError => "lookup_error"
+  | .typeError => "type_or_value_error"
+  | .valueError => "type_or_value_error"
+  | .overflowError => "type_or_value_error"
+  | .attributeError => "attribute_error"
+  | .keyError => "key_error"
+  | .memoryError => "other(MemoryError)"
+  | .other w => "model:" ++ w
+
+def stateJson (st : St) (err : Option Err) (settings : Option Settings) : Json :=
+  let cfg := match st.config with
+    | none => Json.null
+    | some c => Json.mkObj ([("hashing", rowArgsJson c.hashing), ("chunking", rowArgsJson c.chunking)] ++
+        (match c.cipher with
+         | none => []
+         | some ci => [("encryption", Json.mkObj [("cipher", rowArgsJson ci)])]))
+  let kdf := match st.key with
+    | none => Json.null
+    | some k => rowArgsJson (k.userKdf.row, k.userKdf.args)
+  Json.mkObj [
+    ("accept", Json.bool err.isNone),
+    ("error", match err with | none => Json.null | some e => Json.str (errName e)),
+    ("puts", Json.arr (st.puts.map Json.str).toArray),
+    ("config", if err.isNone then cfg else Json.null),
+    ("kdf", if err.isNone then kdf else Json.null),
+    ("encrypted", Json.bool st.encrypted),
+    ("usable", Json.bool (err.isNone && usable st)),
+    ("why", Json.arr ((if err.isNone then unusableWhy st else []).map Json.str).toArray),
+    ("checked_elsewhere", Json.bool (checkedElsewhere settings))]
+
+def parseKeyOp (j : Json) : Except String (KeyOp Nat) := do
+  let kind ← getStr j "kind"
+  let kdf ← getNat j "kdf"
+  match kind with
+  | "independent" => pure (.independent (← getNat j "pw") kdf)
+  | "shared" => pure (.shared (← getNat j "using") (← getNat j "using_pw") (← getNat j "pw") kdf)
+  | "clone" => pure (.clone (← getNat j "using") (← getNat j "using_pw") kdf)
+  | _ => throw s!"unknown key op {kind}"
+
 def handleSettings (op : String) (j : Json) : Except String Json := do
   match op with
+  | "settings.decide" =>
+    let s ← parseSettings (← j.getObjVal? "settings")
+    let pw ← getBool j "password"
+    let (st, err) := runInit s pw
+    pure (stateJson st err s)
+  | "settings.addkey" =>
+    -- the repository was created with `repo_settings` (must be acceptable); then add_key(settings, password, shared, unlocked)
+    let rs ← parseSettings (← j.getObjVal? "repo_settings")
+    let s ← parseSettings (← j.getObjVal? "settings")
+    let pw ← getBool j "password"
+    let shared ← getBool j "shared"
+    let unlocked ← getBool j "unlocked"
+    let (st, err) := runInit rs true
+    match err, st.props with
+    | none, some props =>
+      match addKey s pw shared unlocked props with
+      | .ok k => pure (Json.mkObj [("accept", Json.bool true), ("error", Json.null), ("kdf", rowArgsJson (k.userKdf.row, k.userKdf.args)),
+                                   ("kdf_usable", Json.bool (kdfUsable (k.userKdf.row, k.userKdf.args))), ("uploads", Json.bool addKeyUploads)])
+      | .error e => pure (Json.mkObj [("accept", Json.bool false), ("error", Json.str (errName e)), ("kdf", Json.null),
+                                      ("kdf_usable", Json.bool false), ("uploads", Json.bool addKeyUploads)])
+    | _, _ => throw "repo_settings are not accepted by the model"
+  | "settings.keychain" =>
+    -- symbolic key files: κ = Nat (an id per KDF parameter set), `valid` = ids the library accepts
+    let valid ← getNatList j "valid"
+    let init ← j.getObjVal? "init"
+    let ops ← (← getArr j "ops").toList.mapM parseKeyOp
+    let pws ← getNatList j "passwords"
+    let ring := runKeyOps (fun k => valid.contains k) (initRing (← getNat init "pw") (← getNat init "kdf")) ops
+    let keys := ring.keys.map (fun (k, p) => Json.mkObj [("family", jnat k.family), ("pw", jnat p), ("kdf", jnat k.kdf)])
+    let matrix := ring.keys.map (fun (k, _) => Json.arr (pws.map (fun p => Json.bool (unlockKey k p).isSome)).toArray)
+    pure (Json.mkObj [("keys", Json.arr keys.toArray), ("matrix", Json.arr matrix.toArray)])
+  | "settings.table" =>
+    pure (Json.mkObj [("adapters", Json.arr (adapterTable.map (fun r => Json.mkObj [
+            ("name", Json.str r.name), ("kinds", Json.arr (r.kinds.map Json.str).toArray),
+            ("params", Json.arr (r.params.map (fun p => Json.str p.1)).toArray), ("guards", jnat r.guards.length)])).toArray),
+          ("stages", Json.arr (initStages.map (fun p => Json.str (reprStr p.1 ++ (if p.2 then "?" else "")))).toArray),
+          ("kind_checks", Json.arr (kindChecks.map (fun p => Json.str (p.1 ++ ":" ++ p.2))).toArray),
+          ("witness_hypotheses", Json.mkObj [
+            ("blake2b_has_no_guard", Json.bool (guardCount "blake2b" == 0)),
+            ("gclmulchunker_has_one_guard", Json.bool (guardCount "gclmulchunker" == 1)),
+            ("hashing_kind_unchecked", Json.bool (!kindChecked "hashing")),
+            ("chunking_kind_unchecked", Json.bool (!kindChecked "chunking"))]),
+          ("d12_fixed_in_source", Json.bool d12FixedInSource),
+          ("recognised", Json.bool settingsRecognised)])
   | _ => throw s!"unknown op {op}"
 
 end Driver
